@@ -20,6 +20,8 @@
 (*                          then (compaction state + version write), show, *)
 (*                          maintenance                                    *)
 (*  clearer    "k"  K   clear (version write lock only)                    *)
+(*  rotator    "r"  R   rotate_memtable from any other thread (a writer    *)
+(*                      that found the memtable full): version write lock  *)
 (*                                                                         *)
 (* The flush lock serialises flushes (one flusher), the major compaction   *)
 (* lock is not modelled (one compactor).  The interleavings are explored   *)
@@ -34,7 +36,8 @@ CONSTANTS CKeys, CVals,      \* keys / values
           NWrites,           \* writes the writer performs
           NFlushes,          \* rotate+flush rounds of the flusher
           NCompactions,      \* compactions of the compactor
-          Procs,             \* subset of {"w", "f", "c", "k"}
+          NRotates,          \* rotations by the rotator
+          Procs,             \* subset of {"w", "f", "c", "k", "r"}
           Guard287           \* TRUE: register_tables checks that the memtables still exist
 
 VARIABLES st, A, pc, loc, hid, sched
@@ -47,7 +50,8 @@ ValAtC(s) == (CHOOSE f \in [0..Cardinality(CVals)-1 -> CVals] :
 CInit ==
     /\ st = InitState
     /\ A = AInit
-    /\ pc = [p \in Procs |-> CASE p = "w" -> "W" [] p = "f" -> "F0" [] p = "c" -> "C1" [] p = "k" -> "K"]
+    /\ pc = [p \in Procs |-> CASE p = "w" -> "W" [] p = "f" -> "F0" [] p = "c" -> "C1" [] p = "k" -> "K"
+                                [] p = "r" -> "R"]
     /\ loc = [p \in Procs |-> [n |-> 0]]
     /\ hid = {}
     /\ sched = <<>>
@@ -159,7 +163,19 @@ K ==
     /\ Sched("k", "clear", 0)
     /\ UNCHANGED <<pc, hid>>
 
-CNext == W \/ F0 \/ F1 \/ F2 \/ F3 \/ C1 \/ C2 \/ C3 \/ K
+\* ---------------------------------------------------------------- rotator
+\* seals the active memtable while a flush may be between collecting and registering: the
+\* flush must remove exactly the memtables it collected
+R ==
+    /\ "r" \in Procs /\ pc["r"] = "R" /\ loc["r"].n < NRotates
+    /\ st.mem[Latest(st).act] # {}
+    /\ st' = OpRotate(st)
+    /\ A' = ARotate(A)
+    /\ loc' = [loc EXCEPT !["r"].n = @ + 1]
+    /\ Sched("r", "rotate", 0)
+    /\ UNCHANGED <<pc, hid>>
+
+CNext == W \/ F0 \/ F1 \/ F2 \/ F3 \/ C1 \/ C2 \/ C3 \/ K \/ R
 CSpec == CInit /\ [][CNext]_cvars
 
 -----------------------------------------------------------------------------
